@@ -49,9 +49,28 @@ class Graph:
         out = set()
         for n in self.nodes:
             t = self.tree(n)
-            if t is not None and pred(t):
+            if t is None:
+                continue
+            if pred(t):
                 out.add(n)
+            elif t.get('callee') and self._helper_hits(t['callee'], pred):
+                out.add(n)      # the event happens inside a helper the reviewed inventory does not know: it happens at the call
         return out
+
+    def _helper_hits(self, callee, pred, depth=0):
+        fs = getattr(self.fn, 'fs', None)
+        if fs is None or depth > 3:
+            return False
+        h = fs.fns.get(callee)
+        if h is None or not h.d.get('_new_helper') or h.body is None:
+            return False
+        from .facts import walk
+        for m in walk(h.body):
+            if pred(m):
+                return True
+            if m.get('callee') and m['callee'] != callee and self._helper_hits(m['callee'], pred, depth + 1):
+                return True
+        return False
 
     # ---- reachability ------------------------------------------------------------------------------------------------------
     def reach(self, start, avoid=frozenset()):
